@@ -99,13 +99,15 @@ impl BinaryDeserializer for Dd {
     }
 }
 
-/// two-byte inputs: every pair over the bytes at which the classes of UTF-16 code units change
-/// (all 65 536 pairs when `all`)
+/// two-byte inputs: every pair over the bytes at which the classes of UTF-16 code units change;
+/// when `all`, every low byte under each of those high bytes (the whole 256-unit rows on both
+/// sides of each edge of the surrogate block, and the first and last rows of the code space)
 fn char_inputs(all: bool) -> Vec<Vec<u8>> {
-    let edge: Vec<u8> = if all { (0..=255u8).collect() } else { vec![0x00, 0x01, 0x61, 0x7f, 0x80, 0xd7, 0xd8, 0xdb, 0xdc, 0xdf, 0xe0, 0xfe, 0xff] };
+    let edge: Vec<u8> = vec![0x00, 0x01, 0x61, 0x7f, 0x80, 0xd7, 0xd8, 0xdb, 0xdc, 0xdf, 0xe0, 0xfe, 0xff];
+    let low: Vec<u8> = if all { (0..=255u8).collect() } else { edge.clone() };
     let mut out = Vec::new();
     for a in &edge {
-        for b in &edge {
+        for b in &low {
             out.push(vec![*a, *b]);
         }
     }
